@@ -329,6 +329,25 @@ def error_type_table(ctx, rule, depth=2, custom_too=True):
                 kinds[got.raises or 'compiles'] = kinds.get(got.raises or 'compiles', 0) + 1
                 if got.raises and got.raises not in ALLOWED and bad is None:
                     bad = (f'{text} with custom {{{name!r}: {definition!r}, ":--b": ":--a"}}', got)
+                if got.raises == 'SelectorSyntaxError' and pos_bad is None:
+                    args = got.extra.get('args', ())
+                    ints = [a for a in args[1:] if isinstance(a, int) and not isinstance(a, bool)]
+                    pats = [a for a in args[1:] if isinstance(a, str)]
+                    if ints and pats and not (0 <= ints[0] <= len(pats[0])):
+                        pos_bad = (f'{text} with custom {{{name!r}: {definition!r}}}', ints[0], pats[0])
+        # errors inside (multi-line, nested) custom definitions: the offset belongs to the text the error shows
+        for custom in ({':--x': 'div > , p'}, {':--x': 'a,\n\n  b > > c'}, {':--x': ':--y', ':--y': 'p:is(a, b'}, {':--x': 'a' * 30 + ' $'}, {':--x': 'ok', ':--y': '[a='}):
+            for text in ('a:--x', ':--x', 'p, :--y'):
+                got = compile_text(ctx, text, custom=custom, cache=False)
+                n += 1
+                if got.raises and got.raises not in ALLOWED and bad is None:
+                    bad = (f'{text} with custom {custom!r}', got)
+                if got.raises == 'SelectorSyntaxError' and pos_bad is None:
+                    args = got.extra.get('args', ())
+                    ints = [a for a in args[1:] if isinstance(a, int) and not isinstance(a, bool)]
+                    pats = [a for a in args[1:] if isinstance(a, str)]
+                    if ints and pats and not (0 <= ints[0] <= len(pats[0])):
+                        pos_bad = (f'{text} with custom {custom!r}', ints[0], pats[0])
     rule.instance({'texts': n, 'outcomes': kinds}, key='error-types')
     rule.obligation(bad is None and pos_bad is None)
     if bad is not None:
@@ -342,3 +361,37 @@ def error_type_table(ctx, rule, depth=2, custom_too=True):
         rule.violation(f'compile({text!r}) error offset', 'soupsieve/css_parser.py',
                        f'the SelectorSyntaxError for {text!r} is raised with offset {idx}, which lies outside the pattern (length {len(pat)}): '
                        f'line, column and the caret of the diagnostic are then computed for a position that does not exist')
+
+
+
+def custom_isolation_table(ctx, rule):
+    """Compiling is a function of (pattern, custom map, flags): the structure compiled for a pattern under one custom map is the
+    same whether or not other maps - with entries of the same text that mean something else - were compiled before it in the same
+    process (module-level state of the interpreted package is carried from one compile to the next)."""
+    cases = [
+        (':--a', {':--a': ':--b', ':--b': 'p'}, {':--a': ':--b', ':--b': 'div.x'}),
+        ('x:--a', {':--a': ':is(:--b, q)', ':--b': 'p > i'}, {':--a': ':is(:--b, q)', ':--b': '[t]'}),
+        (':--a, :--c', {':--a': 'p', ':--c': ':--a:not(.y)'}, {':--a': 'li', ':--c': ':--a:not(.y)'}),
+        (':--a', {':--a': 'p'}, {':--A': 'div'}),
+    ]
+    bad = None
+    n = 0
+    for text, m1, m2 in cases:
+        for first, second in ((m1, m2), (m2, m1)):
+            state = {}
+            compile_text(ctx, text, custom=first, persist=state)
+            got = compile_text(ctx, text, custom=second, persist=state)
+            again = compile_text(ctx, text, custom=first, persist=state)
+            fresh2 = compile_text(ctx, text, custom=second, persist={})
+            fresh1 = compile_text(ctx, text, custom=first, persist={})
+            n += 5
+            ok = got == fresh2 and again == fresh1
+            rule.instance({'pattern': text, 'first_map': first, 'second_map': second, 'independent': ok}, key=f'custom-iso|{text}|{sorted(first.items())}')
+            if not ok and bad is None:
+                bad = (text, first, second, got if got != fresh2 else again, fresh2 if got != fresh2 else fresh1)
+    rule.obligation(bad is None)
+    if bad is not None:
+        text, first, second, got, fresh = bad
+        rule.violation(f'custom map isolation `{text}`', 'soupsieve/css_parser.py (parse_pseudo_class_custom / process_custom)',
+                       f'compiling {text!r} with custom={second!r} after compiling it with custom={first!r} gives {got.brief(160)}, a fresh process '
+                       f'gives {fresh.brief(160)}: what a custom selector expands to depends on maps that were compiled earlier')
